@@ -57,7 +57,7 @@ pub fn configs(prop: &str) -> Vec<Config> {
             c("history", 4_000, 40_000),
             c("threads", 4_000, 60_000),
             c("multirule", 2_500, 30_000),
-            Config { kind: "process", quick: 3, thorough: 3, exhaustive: true },
+            Config { kind: "process", quick: 4, thorough: 4, exhaustive: true },
         ],
         "C13" => vec![c("validate", 12_000, 400_000), c("torn", 12_000, 400_000), c("threads", 1_500, 20_000)],
         "C14" => vec![c("roundtrip", 10_000, 300_000), c("torn", 4_000, 100_000)],
